@@ -228,7 +228,7 @@ func (g *gen) debVersion() string {
 	return v
 }
 
-func url(g *gen) string {
+func genURL(g *gen) string {
 	return "https://" + g.r.Pick("example.com", "security.example.org", "bugs.example.net") + "/" + g.word(3, 10)
 }
 
@@ -289,6 +289,7 @@ func Run(cfg hx.Config) error {
 	runDebian(r, g, cfg)
 	runAws(r, g, cfg)
 	runOval(r, g, cfg)
+	runOsv(r, g, cfg)
 	return r.Close()
 }
 
